@@ -90,18 +90,28 @@ def mc_trees(ctx):
     """exhaustive model checking of the design model; returns the emitted scope trees"""
     cfgs = ['JsRenamer_quick.cfg', 'JsRenamer_withq.cfg'] if ctx.quick() else \
         ['JsRenamer_thorough.cfg', 'JsRenamer_three.cfg', 'JsRenamer_with.cfg']
+    w = max(2, min(8, vlib.JOBS // 2))
+
+    def mc(cfg):
+        return vlib.tlc_mc(ctx, 'JsRenamer', cfg, workers=w, heap='6g', timeout=3000)
+
+    def cross(_):
+        # the design-level counterexample of the known finding with-outer (never a verdict by itself): the model of
+        # the code's per-function with flag violates WithCross; the rendered witnesses are pinned in known/C02.ndjson
+        return vlib.tlc(ctx, 'JsRenamer', 'JsRenamer_withcross.cfg', workers=2, timeout=1200)
+
+    with ThreadPoolExecutor(max_workers=len(cfgs) + 1) as ex:
+        fx = ex.submit(cross, None)
+        results = list(ex.map(mc, cfgs))
+        rx = fx.result()
     trees = []
-    for cfg in cfgs:
-        r = vlib.tlc_mc(ctx, 'JsRenamer', cfg, workers=8, heap='6g', timeout=2400)
+    for cfg, r in zip(cfgs, results):
         n0 = len(trees)
         for m in re.finditer(r'<<"TREE", "((?:[^"\\]|\\.)*)">>', r['out']):
             trees.append(json.loads(json.loads('"' + m.group(1) + '"')))
         ctx.coverage.setdefault('mc_runs', []).append(dict(cfg=cfg, states=r['distinct'], trees=len(trees) - n0,
                                                             wall_s=round(r['wall'], 1)))
-    # the design-level counterexample of the known finding (never a verdict by itself): the model of the
-    # code's per-function with flag violates WithCross; the rendered witness is pinned in known/C02.ndjson
-    r = vlib.tlc(ctx, 'JsRenamer', 'JsRenamer_withcross.cfg', workers=min(4, vlib.JOBS), timeout=1200)
-    ctx.coverage['design_counterexample_WithCross'] = 'WithCross' in r['invariant_violations']
+    ctx.coverage['design_counterexample_WithCross'] = 'WithCross' in rx['invariant_violations']
     return trees
 
 
